@@ -127,11 +127,26 @@ def run(ctx):
     # the listener is closed (accept reports net.ErrClosed, StreamServe cancels its handlers' context, as at every reload or stop)
     # while a probe is being absorbed: the probe report must still carry everything the prober sent until the connection
     # ended, and the connection is reported closed once (family shared with C06, judged here by the C15 layer)
-    sh = tc.gen(ctx, "Gen_TcpConn_C06Shutdown.cfg", 1500 if q else 8000, seed=ctx.seed + 11)
-    spick = tc.select([b for b in sh if tc.features(b)["lclose"] and tc.features(b)["probe"]], 24 if q else 300,
-                      lambda f: (f["hs"], min(f["ntok"], 3), f["ticks"] > 2), rng)
-    if len(spick) < 12:
-        raise vlib.Inconclusive("too few listener-closes-during-absorb behaviours (%d)" % len(spick))
+    sh = tc.gen(ctx, "Gen_TcpConn_C06Shutdown.cfg", 6000 if q else 24000, seed=ctx.seed + 11)
+    def more_before_close(b):
+        """bytes beyond the 50-byte search window (token kind 9, "junk") were sent a tick or more before the listener closed: the
+        drain has read them by then, so a report made at that moment must already count them"""
+        seen_junk = ticked = False
+        for e in b["tr"]:
+            if e["a"] == "CSend" and e["v"] // 10 == 9:
+                seen_junk = True
+            elif e["a"] == "Tick" and seen_junk:
+                ticked = True
+            elif e["a"] == "CloseListener":
+                return seen_junk and ticked
+        return False
+    shc = [b for b in sh if tc.features(b)["lclose"] and tc.features(b)["probe"]]
+    key = lambda f: (f["hs"], min(f["ntok"], 3), f["ticks"] > 2)
+    sp1 = tc.select([b for b in shc if more_before_close(b)], 14 if q else 150, key, rng)
+    spick = sp1 + tc.select([b for b in shc if not more_before_close(b)], 12 if q else 150, key, rng)
+    if len(spick) < 12 or len(sp1) < 3:
+        raise vlib.Inconclusive("too few listener-closes-during-absorb behaviours (%d, %d with data absorbed before the close)" % (len(spick), len(sp1)))
+    ctx.cov["probes_with_data_absorbed_before_listener_close"] = len(sp1)
     shcases, _, _, shhung = tc.run_family(ctx, "C15_", spick, label="c15-listener-closes-during-absorb", par=8, **tc.TIMED)
     if shhung:
         raise vlib.Inconclusive("handlers still running after the script ended: %s" % ctx.notes[-1])
